@@ -14,6 +14,16 @@ int, object, date) x
   * tables up to 3x3: cell / row / column / region assignment with fitting, wider, None and
     foreign values, wrong shapes and out-of-range indices; rename_columns with every old/new list
     of length <= 2 over {a, b, c, missing} (and length mismatch).
+  * ONE multi-value write whose values need two or more different promotions, every order
+    (int <- float + complex, bool <- int + float + complex, date <- date + datetime, with narrower values and
+    None mixed in), lengths 2 and 3, through slice / mask / index-list / index-vector keys on vectors and through
+    table column and table region writes: final kind covers every element, existing elements converted;
+  * failing multi-value writes that mix None with an incompatible value in every order (and with a wider
+    value in front): contents, kind, nullable flag, name and fingerprint unchanged, on vectors and table columns;
+  * table writes addressed by column NAME as the first access after a rename through a live view
+    (t['a'].name = 'z', t.a.name, t.cols()[i].name, renamed twice, two columns swapping names): the new name
+    writes its column, the old name must raise and change nothing; the same on tables whose names differ only
+    in case / sanitisation (reported under one key of its own).
 Oracle: a pure-Python model (list assignment on the addressed positions + the kind lattice).
 Any raise must leave view(v) and v.fingerprint() exactly as before.
 """
@@ -51,6 +61,8 @@ BASE = {
     'object': ([1, 'a', 2.5, (1,)], object, 'o'),
     'date': ([D, D2, D3, D4], date, 'when'),
 }
+DTM2, DTM3 = datetime(2023, 1, 2, 3, 4), datetime(2019, 9, 8, 7, 6)
+BASE2 = dict(BASE, datetime=([DTM, DTM2, DTM3, DTM], datetime, 'stamp'))      # strengthen blocks only
 # symbols: F fits, n narrower, W wider, V wider still, X foreign, N None
 SYM = {
     'int': {'F': [7, 8, 9, 10], 'n': True, 'W': 2.5, 'V': 1j, 'X': 'x'},
@@ -282,7 +294,9 @@ def value_forms(dt, m):
 
 
 TCOLS = {'a': [1, 2, 3], 'b': ['x', 'y', 'z'], 'c': [0.5, 1.5, 2.5]}
-TKIND = {'a': int, 'b': str, 'c': float}
+TKIND = {'a': int, 'b': str, 'c': float,
+         'n': int, 'flag': bool, 'when': date, 's': str,                                # strengthen tables
+         'Val': int, 'val': int, 'my col': int, 'my_col': int}
 CELLVALS = {'a': [9, None, 2.5, 'q'], 'b': ['w', None, 5], 'c': [9.5, None, 1j, 'q', 4]}
 
 
@@ -293,7 +307,183 @@ def tables():
             yield {nm: TCOLS[nm][:r] for nm in names[:c]}
 
 
+# ---- strengthen ------------------------------------------------------------------------------------
+PROMO_POOL = {
+    # values offered to ONE multi-value write; a sequence qualifies when it needs >= 2 different promotions
+    'int': [True, 7, 2.5, 1 + 2j],
+    'bool': [False, 7, 2.5, 1 + 2j],
+    'nint': [7, 2.5, 1 + 2j, None],
+    'date': [D4, DTM, DTM2, None],
+    'datetime': [DTM2, D4, D3, None],
+}
+FAIL_POOL = {
+    # F fits, N None, X incompatible, W wider (accepted alone)
+    'int': {'F': 7, 'X': 'x', 'W': 2.5}, 'float': {'F': 7.5, 'X': 'x', 'W': 1j}, 'str': {'F': 'p', 'X': 5},
+    'bool': {'F': False, 'X': 'x', 'W': 7}, 'date': {'F': D4, 'X': 5, 'W': DTM}, 'nint': {'F': 7, 'X': 'x', 'W': 2.5},
+    'datetime': {'F': DTM2, 'X': 'x'},
+}
+PROMO_KEYS = {
+    2: [['slice', [None, None, None]], ['slice', [None, None, -1]], ['vmask', [True, True]], ['lmask', [True, True]],
+        ['ilist', [0, 1]], ['ilist', [1, 0]], ['ituple', [-1, -2]], ['ivec', [0, 1]]],
+    3: [['slice', [0, 2, None]], ['slice', [1, 3, None]], ['slice', [None, None, -1]], ['slice', [None, None, 2]], ['slice', [None, None, None]],
+        ['vmask', [True, False, True]], ['lmask', [False, True, True]], ['vmask', [True, True, True]],
+        ['ilist', [0, 2]], ['ilist', [2, 0]], ['ituple', [1, 2]], ['ivec', [0, 1]], ['ilist', [0, 1, 2]], ['ilist', [2, 1, 0]],
+        ['ilist', [-1, -3]], ['ivec', [2, 0, 1]]],
+    4: [['slice', [1, 3, None]], ['slice', [0, 3, None]], ['slice', [None, 0, -1]], ['vmask', [True, True, False, True]], ['lmask', [False, True, False, True]],
+        ['ilist', [3, 0, 1]], ['ituple', [0, -1]], ['ivec', [1, 2]]],
+}
+
+
+def promotions_needed(dt, seq):
+    kind = BASE2[dt][1]
+    if kind in (date, datetime):
+        ts = {type(x) for x in seq if x is not None}
+        return 2 if ts == {date, datetime} else 0
+    return len({type(x) for x in seq if x is not None and not belongs(type(x), kind)})
+
+
+def promo_sequences(dt, m):
+    return [list(q) for q in itertools.product(PROMO_POOL[dt], repeat=m) if promotions_needed(dt, q) >= 2]
+
+
+def fail_sequences(dt, m):
+    pool = FAIL_POOL[dt]
+    out = []
+    for q in itertools.product([c for c in 'FNXW' if c == 'N' or c in pool], repeat=m):
+        if 'N' in q and 'X' in q:
+            out.append([None if c == 'N' else pool[c] for c in q])
+    return out
+
+
+T2 = {'n': [1, 2, 3], 'flag': [True, False, True], 'when': [D, D2, D3], 's': ['x', 'y', 'z']}
+T2DT = {'n': 'int', 'flag': 'bool', 'when': 'date', 's': 'str'}
+TWIN_TABLES = [
+    {'x y': [1, 2, 3], 'b': ['x', 'y', 'z']},                                  # not a twin: a name that is not its own attribute spelling
+    {'Val': [1, 2, 3], 'val': [4, 5, 6]}, {'val': [4, 5, 6], 'Val': [1, 2, 3]},
+    {'Val': [1, 2, 3], 'b': ['x', 'y', 'z'], 'val': ['p', 'q', 'r']}, {'my col': [1, 2, 3], 'my_col': [4, 5, 6]},
+    {'my_col': ['x', 'y', 'z'], 'my col': [1, 2, 3]},
+]
+
+
+def rename_plans(names):
+    plans = []
+    for i, nm in enumerate(names):
+        for how in ('view', 'attr', 'cols'):
+            plans.append([[i, 'z', how]])
+        plans.append([[i, 'x y', 'view']])
+        plans.append([[i, 'z', 'view'], [i, 'y', 'view']])                 # renamed twice through one view
+        for other in names:
+            if other != nm:
+                plans.append([[i, other.upper(), 'view']])                 # now differs from a neighbour only in case
+    for i in range(len(names)):
+        for j in range(i + 1, len(names)):
+            plans.append([[i, names[j], 'view'], [j, names[i], 'view']])   # two columns swap names
+            plans.append([[j, names[i], 'cols'], [i, names[j], 'cols']])
+    return plans
+
+
+def names_after(names, plan):
+    cur, gone = list(names), []
+    for i, new, how in plan:
+        gone.append(cur[i])
+        cur[i] = new
+    return cur, [g for g in dict.fromkeys(gone) if g not in cur]
+
+
+def name_write_cases(t, plan, universe, r):
+    """Cell / column / row-by-name-list writes addressed by name on table t after plan."""
+    vals = {int: [9, None, 2.5, 'q'], str: ['w', None, 5], float: [9.5, None, 'q']}
+    names = list(t)
+    after, gone = names_after(names, plan)
+    kind_at = lambda j: type(t[names[j]][0])
+    for nm in universe:
+        exact = [j for j, x in enumerate(after) if x == nm]
+        kind = kind_at(exact[0]) if len(exact) == 1 else int
+        for x in vals[kind]:
+            for i in sorted({0, r - 1, -1}):
+                yield {'k': 'trn', 'form': 'cell', 't': lit(t), 'plan': plan, 'row': i, 'name': nm, 'x': lit(x)}
+            yield {'k': 'trn', 'form': 'column', 't': lit(t), 'plan': plan, 'rows': [None, None, None], 'name': nm, 'x': lit(x)}
+        fill = {int: [7, 8, 9], str: ['p', 'q', 'r'], float: [7.5, 8.5, 9.5]}[kind][:r]
+        yield {'k': 'trn', 'form': 'column', 't': lit(t), 'plan': plan, 'rows': [None, None, None], 'name': nm, 'x': lit(fill)}
+        yield {'k': 'trn', 'form': 'column', 't': lit(t), 'plan': plan, 'rows': [None, None, -1], 'name': nm, 'x': lit(fill)}
+    # a row written through a list of names (both orders)
+    for a, b in itertools.permutations(universe, 2):
+        ea = [j for j, x in enumerate(after) if x == a]
+        eb = [j for j, x in enumerate(after) if x == b]
+        xa = vals[kind_at(ea[0]) if len(ea) == 1 else int][0]
+        xb = vals[kind_at(eb[0]) if len(eb) == 1 else int][0]
+        yield {'k': 'trn', 'form': 'row', 't': lit(t), 'plan': plan, 'row': 0, 'names': [a, b], 'x': lit([xa, xb])}
+
+
+def cases_strengthen(tier):
+    # ---- A: one multi-value write needing two or more different promotions, every order
+    for dt in PROMO_POOL:
+        for n, keys in PROMO_KEYS.items():
+            for key in keys:
+                m = len(positions(key, n)[1])
+                for q in promo_sequences(dt, m):
+                    forms = ('l', 't', 'v') if (m == 2 or tier != 'quick') else ('l',)
+                    for form in forms:
+                        yield {'k': 'vec', 'dt': dt, 'n': n, 'key': key, 'val': [form, lit(q)], 'blk': 'promo'}
+    # ---- B: failing writes that mix None with an incompatible value
+    for dt in FAIL_POOL:
+        for n, keys in PROMO_KEYS.items():
+            for key in keys:
+                m = len(positions(key, n)[1])
+                for q in fail_sequences(dt, m):
+                    for form in ('l', 't'):
+                        yield {'k': 'vec', 'dt': dt, 'n': n, 'key': key, 'val': [form, lit(q)], 'blk': 'none+bad'}
+    # ---- C: the same through table column / region writes
+    rowspecs = [[None, None, None], [0, 2, None], [1, None, None], [None, None, -1], [None, None, 2]]
+    for r in (3, 2):
+        t = {nm: col[:r] for nm, col in T2.items()}
+        names = list(t)
+        for j, nm in enumerate(names):
+            dt = T2DT[nm]
+            for rs in rowspecs:
+                m = len(list(range(r))[slice(*rs)])
+                if m < 2:
+                    continue
+                seqs = (promo_sequences(dt, m) if dt in PROMO_POOL else []) + fail_sequences(dt, m)
+                for q in seqs:
+                    for cs in (['name', nm], ['int', j]):
+                        yield {'k': 'tcol', 't': lit(t), 'rows': rs, 'col': cs, 'val': ['l', lit(q)], 'blk': 'promo'}
+        for rs in rowspecs:
+            m = len(list(range(r))[slice(*rs)])
+            if m < 2:
+                continue
+            for csl, cols in ([[0, 2, None], ['n', 'flag']], [[0, 3, None], ['n', 'flag', 'when']], [[2, 0, -1], ['when', 'flag']]):
+                lists = [promo_sequences(T2DT[c], m) for c in cols]
+                for i in range(max(len(x) for x in lists)):
+                    src = {f'z{q}': lists[q][i % len(lists[q])] for q in range(len(cols))}
+                    yield {'k': 'tregion', 't': lit(t), 'rows': rs, 'cols': csl, 'val': ['t', lit(src)], 'blk': 'promo'}
+                bad = fail_sequences(T2DT[cols[0]], m)
+                for i, b in enumerate(bad):
+                    src = {f'z{q}': (b if q == 0 else lists[q][i % len(lists[q])]) for q in range(len(cols))}
+                    yield {'k': 'tregion', 't': lit(t), 'rows': rs, 'cols': csl, 'val': ['t', lit(src)], 'blk': 'none+bad'}
+    # ---- E: names that differ only in case / sanitisation
+    for full in TWIN_TABLES:
+        for r in (3, 1):
+            t = {k: v[:r] for k, v in full.items()}
+            yield from name_write_cases(t, [], list(t) + ['missing'], r)
+    # ---- D: writes addressed by column name, first access after a rename through a live view
+    for t in tables():
+        names = list(t)
+        r = len(t[names[0]])
+        if tier == 'quick' and r == 2 and len(names) != 2:
+            continue
+        for plan in rename_plans(names):
+            after, gone = names_after(names, plan)
+            universe = list(dict.fromkeys(after + gone + ['missing']))
+            yield from name_write_cases(t, plan, universe, r)
+
+
 def cases(tier, seed):
+    yield from cases_base(tier, seed)
+    yield from cases_strengthen(tier)
+
+
+def cases_base(tier, seed):
     # ---- index phase: the full key cube with representative values
     for dt in ('int', 'nint'):
         for n in range(5):
@@ -402,7 +592,7 @@ def cases(tier, seed):
 # --------------------------------------------------------------------------------------------
 
 def mkvec(dt, n):
-    vals, kind, name = BASE[dt]
+    vals, kind, name = BASE2[dt]
     vals = vals[:n]
     nullable = dt == 'nint' and (n == 0 or any(x is None for x in vals))
     if dt == 'object':
@@ -414,7 +604,7 @@ def mkvec(dt, n):
 
 
 def vsrc(dt, n):
-    vals, kind, name = BASE[dt]
+    vals, kind, name = BASE2[dt]
     vals = vals[:n]
     nm = f', name={name!r}' if name else ''
     if dt == 'object':
@@ -631,11 +821,26 @@ def grid(t):
     return [list(col) for col in t.cols()]
 
 
-def check_table(case, src, site, d, t, before_view, err, col_expect, all_or_nothing):
+_FP0 = {}
+
+
+def check_table(case, src, site, d, t, before_view, err, col_expect, all_or_nothing, fp0=None):
     """col_expect: {col position: model outcome}; None => the whole assignment must fail."""
     names = list(d)
     fails = []
     got = grid(t)
+    if fp0 is None:
+        fp0 = _FP0.pop(id(t), None)
+    _FP0.clear()
+    try:
+        fp1 = [c.fingerprint() for c in t.cols()]
+    except Exception:
+        fp1 = None
+    if err is not None and fp0 is not None and fp1 is not None and fp1 != fp0 and view(t) == before_view:
+        fails.append(Fail(f'C08:{site}:fingerprint-changed-on-failure', f'{src} raised {err!r}; cells and schema are unchanged but the column fingerprints are not',
+                          fp0, fp1))
+    if err is None and fp1 is not None and fp1 != [Vector(list(c)).fingerprint() for c in t.cols()]:
+        fails.append(Fail(f'C08:{site}:stale-fingerprint', f'{src}: a column fingerprint() does not match its new contents', None, None))
     kinds = [c.schema().kind for c in t.cols()]
     if t.column_names() != names:
         fails.append(Fail(f'C08:{site}:column-names-changed', f'{src}: {t.column_names()!r}', names, t.column_names()))
@@ -708,6 +913,8 @@ def spec_src(cs):
 def run_table(d, do):
     t = mktable(d)
     before = view(t)
+    _FP0.clear()
+    _FP0[id(t)] = [c.fingerprint() for c in t.cols()]
     try:
         do(t)
         err = None
@@ -826,7 +1033,105 @@ def eval_rename(case):
     return fails
 
 
-EVAL = {'vec': eval_vec, 'tcell': eval_tcell, 'trow': eval_trow, 'tcol': eval_tcol, 'tregion': eval_tregion, 'rename': eval_rename}
+def _loose(n):
+    return n.lower().replace(' ', '_')
+
+
+def renamed_table(d, plan):
+    """A fresh table with the plan applied: all views taken first, then the names set; nothing else touched."""
+    t = mktable(d)
+    cur = list(d)
+    views = {}
+    for i, new, how in plan:
+        if (i, how) in views:
+            continue
+        if how == 'view':
+            views[(i, how)] = t[cur[i]]
+        elif how == 'attr':
+            views[(i, how)] = getattr(t, cur[i])
+        else:
+            views[(i, how)] = t.cols()[i]
+    for i, new, how in plan:
+        views[(i, how)].name = new
+    return t
+
+
+def plan_src(d, plan):
+    cur = list(d)
+    parts = []
+    for i, new, how in plan:
+        tgt = {'view': f't[{cur[i]!r}]', 'attr': f't.{cur[i]}', 'cols': f't.cols()[{i}]'}[how]
+        parts.append(f'{tgt}.name = {new!r}')
+    return ('views taken, then ' + '; '.join(parts) + '; ') if parts else ''
+
+
+def eval_trn(case):
+    d = cev(case['t'])
+    plan, form = case['plan'], case['form']
+    have = list(d)
+    after, gone = names_after(have, plan)
+    req = case['names'] if form == 'row' else [case['name']]
+    x = cev(case['x'])
+    idx, must_raise, undecided, twin, unsan = [], None, False, False, False
+    for nm in req:
+        exact = [j for j, a in enumerate(after) if a == nm]
+        loose = sum(1 for a in after if _loose(a) == _loose(nm))
+        if len(exact) == 1:
+            idx.append(exact[0])
+            twin = twin or loose > 1
+            unsan = unsan or not nm.isidentifier()      # the name is not its own attribute spelling ('x y')
+        elif len(exact) > 1 or loose:
+            undecided = True               # ambiguous, or a case / sanitisation variant: may be resolved or rejected
+        else:
+            must_raise = must_raise or nm
+    if undecided and not must_raise:
+        return []
+    if len(set(after)) != len(after):
+        return []
+    d2 = {after[j]: d[have[j]] for j in range(len(have))}
+    kinds = [type(d[h][0]) for h in have]
+    if form == 'cell':
+        key, ksrc = (case['row'], case['name']), f't[{case["row"]}, {case["name"]!r}]'
+    elif form == 'column':
+        key, ksrc = (slice(*case['rows']), case['name']), f't[{spec_src(["slice", case["rows"]])}, {case["name"]!r}]'
+    else:
+        key, ksrc = (case['row'], list(req)), f't[{case["row"]}, {list(req)!r}]'
+    src = f't = Table({case["t"]}); {plan_src(d, plan)}{ksrc} = {case["x"]}'
+    try:
+        ref = renamed_table(d, plan)       # an identical twin supplies the 'before' picture: t itself is not touched
+        before, fp0 = view(ref), [c.fingerprint() for c in ref.cols()]
+        t = renamed_table(d, plan)
+    except Exception as e:
+        return [Fail(f'C08:rename-through-view:raised-{type(e).__name__}', src + f': preparing the table raised {e!r}', None, repr(e))]
+    try:
+        t[key] = x
+        err = None
+    except Exception as e:
+        err = e.with_traceback(None)
+    if must_raise:
+        exp = None
+    elif form == 'cell':
+        exp = {idx[0]: model(d[have[idx[0]]], kinds[idx[0]], False, ['int', case['row']], ['s', x])}
+    elif form == 'column':
+        exp = {idx[0]: model(d[have[idx[0]]], kinds[idx[0]], False, ['slice', case['rows']], ['l' if isinstance(x, list) else 's', x])}
+    else:
+        exp = {j: model(d[have[j]], kinds[j], False, ['int', case['row']], ['s', x[q]]) for q, j in enumerate(idx)}
+    tag = '.case-twin-name' if twin else ('.unsanitised-name' if unsan else ('.after-rename' if plan else '.by-name'))
+    aon = exp is None or len(exp) <= 1 or all(o[0] == 'fail' and o[1] == 'index' for o in exp.values())
+    fails = check_table(case, src, f'Table.setitem.{form}{tag}', d2, t, before, err, exp, aon, fp0=fp0)
+    if twin or unsan:
+        # The statements do not decide these: C17 defines a column key of table item assignment as
+        # the ACCESSOR name (so with columns 'Val','val' the key 'val' addresses column 0, and the
+        # stored name 'x y' is not a key at all), while exact stored names are promised only for
+        # string INDEXING.  Demanding getitem-style resolution here asked for more than is stated
+        # (reported once as a false alarm, see DESIGN.md addendum): C08-level failures of these two
+        # families are dropped, C03 truthfulness findings are kept.
+        fails = [f for f in fails if not f['key'].startswith('C08:')]
+    return fails
+
+
+EVAL = {'vec': eval_vec, 'tcell': eval_tcell, 'trow': eval_trow, 'tcol': eval_tcol, 'tregion': eval_tregion, 'rename': eval_rename,
+        'trn': eval_trn}
 
 
 def evaluate(case):
@@ -841,13 +1146,13 @@ def nontrivial(case):
     k = case['k']
     if k == 'vec':
         dt, n, key, val = case['dt'], case['n'], case['key'], case['val']
-        vals, kind, name = BASE[dt]
+        vals, kind, name = BASE2[dt]
         pyval = cev(val[1])
         exp = model(vals[:n], kind, dt == 'nint', key, [val[0], pyval] + val[2:])
         st, pos = positions(key, n)
         kinds = tuple(type(x).__name__ for x in (pyval if isinstance(pyval, list) else [pyval]))
         return (dt, n, key[0], tuple(pos) if st == 'ok' else pos, val[0], kinds, exp[0], exp[1] if exp[0] == 'fail' else None)
-    return (k,) + tuple(str(case.get(f)) for f in ('t', 'row', 'col', 'rows', 'cols', 'x', 'vals', 'val', 'old', 'new', 'how'))
+    return (k,) + tuple(str(case.get(f)) for f in ('t', 'row', 'col', 'rows', 'cols', 'x', 'vals', 'val', 'old', 'new', 'how', 'plan', 'form', 'name', 'names'))
 
 
 if __name__ == '__main__':
@@ -856,7 +1161,9 @@ if __name__ == '__main__':
               'index list/tuple/int-vector of length 1..2 over -n-1..n) x value forms (8 scalars, symbol sequences over fits/narrower/wider/wider2/'
               'foreign/None, wrong lengths, tuple/Vector containers, sized iterable raising at each position): full key cube x 4 values on int and '
               'nullable-int, full value set x one key per addressed-position tuple on every dtype; tables up to 3x3 cell/row/column/region writes; '
-              'rename_columns over all old/new lists of length<=2.  Oracle: list assignment on the addressed positions + kind lattice; any raise '
+              'rename_columns over all old/new lists of length<=2; one multi-value write needing >=2 different promotions in every order (vector keys, '
+              'table column / region); failing writes mixing None with an incompatible value; writes addressed by column name as the first access '
+              'after renames through live views; case-twin column names.  Oracle: list assignment on the addressed positions + kind lattice; any raise '
               'must leave view() and fingerprint() unchanged.  distinct = (dtype, n, key form, addressed positions, value form, value kinds, outcome)',
          bound=lambda tier: {'max_len': 4, 'dtypes': 7, 'slice_cube': '9x9x5', 'index_list_len': 2, 'table': '3x3'},
          nontrivial=nontrivial)
